@@ -60,6 +60,7 @@ class C11(Prop):
         cancel_consumer = profile == "faults" and not gen_raises and s.chance(1, 2, "cancel-consumer")
         break_after = s.draw(max(1, n_items), "break-after") if end.startswith("break") else None
         # a second, simple stream created in the same scope and consumed before or after the first one
+        pre_cancelled = (not cancel_consumer) and s.chance(1, 6, "pre-cancelled")
         second = (mode in ("same-scope", "outside-scope") and end == "exhaust" and not cancel_consumer
                   and s.chance(1, 3, "second-stream"))
         second_first = bool(second and s.draw(2, "second-first"))
@@ -69,7 +70,7 @@ class C11(Prop):
 
         sim.program = {"mode": mode, "end": end, "items": n_items, "item_kinds": item_kinds, "steps": steps, "gen_raises": gen_raises,
                        "cancel_consumer": cancel_consumer, "break_after": break_after, "second_stream": int(second),
-                       "second_consumed_first": int(second_first)}
+                       "second_consumed_first": int(second_first), "consumer_swallowed_a_cancel_before": int(pre_cancelled)}
         if mode != "same-scope" or end in ("break-drop", "never-started") or gen_raises or cancel_consumer:
             sim.nontrivial = True
 
@@ -216,6 +217,13 @@ class C11(Prop):
                 sim.report("R1-second-stream", f"second stream delivered {got}", kind="items", **feat())
 
         async def consume(stream):
+            if pre_cancelled:
+                # the consuming task handled a cancellation earlier (without uncancel): streams must still work
+                asyncio.current_task().cancel()
+                try:
+                    await asyncio.sleep(0)
+                except asyncio.CancelledError:
+                    sim.stats["consumer_swallowed_cancel_before_stream"] += 1
             before = consumer_obs()
             k = 0
             try:
